@@ -10,6 +10,7 @@ E  one entry of the walk, from an arbitrary state of the loop (the walker yields
        named explicitly with --respect-ignores:    (no default glob or it matches) and not ignored by .styluaignore
        found by the traversal:                      (no default glob or it matches)
    and its path is recorded in seen_files exactly when it was not seen; nothing else is dispatched
+I  path_is_stylua_ignored(path) asks the matcher get_ignore returns for this path's own directory about this path (nothing cached)
 H  is_explicitly_provided / should_respect_ignores are what their names say (path is one of opt.files; !explicit || respect_ignores)
 """
 import re, z3
@@ -185,6 +186,51 @@ def helpers(ses, rep):
     return flagged
 
 
+def ignore_lookup(ses, rep):
+    """I  path_is_stylua_ignored(path): the matcher that decides is the one get_ignore returns for THIS path's directory, and it is asked
+    about THIS path - on every returning path (no matcher carried over from another file)"""
+    from . import c02
+    flagged = []
+    ex = ses.executor("bin", "default", inline=lambda n_, f: False)
+    ex.max_block_visits = 2
+    f = ses.need(ex, "path_is_stylua_ignored")
+    args = [RefV(ex.fresh_lazy(t.lstrip("&").replace("mut ", "", 1).strip(), p)) if t.startswith("&") else ex.fresh_lazy(t, p) for p, t in f.params]
+    pi_ = next(i for i, (p, t) in enumerate(f.params) if re.search(r"(^|[&: ])Path$", t))
+    path = args[pi_].v
+    outs = ex.run(f, args)
+    n = 0
+    for pi, o in enumerate(outs):
+        if o.kind != "return":
+            continue
+        v = deref_val(ex, o.state, o.value)
+        if not (isinstance(v, Agg) and v.variant == "Ok"):
+            continue
+        n += 1
+        P = c02.Prov(ex, o)
+        ms = find_calls(o.trace, lambda n_: n_.endswith("matched_path_or_any_parents") or n_.endswith("Gitignore::matched"))
+        ok, why = True, ""
+        if not ms:
+            ok, why = False, "no .styluaignore matcher is consulted"
+        for c in ms:
+            snap = c[4] if len(c) > 4 else c[1]
+            gi = P.of(snap[0])
+            gets = [t for t in o.trace if t[0] == "havoc" and t[1].split("::")[-1] == "get_ignore" and isinstance(t[3], Lazy) and t[3].oid in gi]
+            if not gets or not any(path.oid in P.of((t[4] if len(t) > 4 else t[2])[0]) for t in gets):
+                ok, why = False, "the matcher does not come from get_ignore(<this path's directory>)"
+            others = {x.oid for a_ in args for x in [a_.v if isinstance(a_, RefV) else a_] if isinstance(x, Lazy) and x is not path and not x.ty.strip().endswith("bool")}
+            if gi & others:
+                ok, why = False, "the matcher is taken from state passed in by the caller"
+            if path.oid not in P.of(snap[1]):
+                ok, why = False, "the matcher is asked about another path"
+        oid = f"ignore-lookup/path{pi}/matcher-of-this-path"
+        r, m = ses.obligation(oid, list(o.pc), z3.BoolVal(not ok), "ignored(path) = get_ignore(dir(path)).matched(path)")
+        if r == "sat":
+            flagged.append((oid, f"path_is_stylua_ignored: {why}", "ignore", {}))
+    if n == 0:
+        raise Inconclusive("path_is_stylua_ignored: no Ok path")
+    return flagged
+
+
 def setup(ses, rep):
     """S: the builder calls of format()"""
     flagged = []
@@ -221,7 +267,7 @@ def setup(ses, rep):
 # ------------------------------------------------------------------------------------------------ replay
 U, F_ = clireplay.UNFORMATTED, clireplay.FORMATTED
 TREE = {"a.lua": U, "b.txt": U, ".hidden.lua": U, "sub/c.lua": U, "sub/.dot/e.lua": U, "vendor/d.lua": U, "vendor/keep.lua": U, ".styluaignore": "vendor/\n!vendor/keep.lua\n",
-        "sub/.styluaignore": "skipme.lua\n", "sub/skipme.lua": U, "notes.md": "local   x   =   1\n"}
+        "sub/.styluaignore": "skipme.lua\n", "sub/skipme.lua": U, "notes.md": "local   x   =   1\n", "sub/readme.txt": U}
 
 
 def fmt(r):
@@ -238,8 +284,14 @@ SCENARIOS = [
     ("explicit-nested-ignore-respect", ["--respect-ignores", "sub/skipme.lua"], []),
     ("explicit-nested-ignore", ["sub/skipme.lua"], ["sub/skipme.lua"]),
     ("overlapping", [".", "a.lua", "sub", "sub/c.lua", "a.lua"], ["a.lua", "sub/c.lua"]),
-    ("glob", ["-g", "*.txt", "."], ["b.txt"]),
+    ("glob", ["-g", "*.txt", "."], ["b.txt", "sub/readme.txt"]),
     ("dir-and-ignored-file", ["sub", "vendor/d.lua"], ["sub/c.lua", "vendor/d.lua"]),
+    ("dir-then-explicit-non-lua-inside", ["sub", "sub/readme.txt"], ["sub/c.lua", "sub/readme.txt"]),
+    ("explicit-non-lua-then-dir", ["sub/readme.txt", "sub"], ["sub/c.lua", "sub/readme.txt"]),
+    ("cwd-then-explicit-non-lua", [".", "b.txt"], ["a.lua", "b.txt", "sub/c.lua"]),
+    ("respect-several-dirs", ["--respect-ignores", "a.lua", "sub/skipme.lua", "sub/c.lua"], ["a.lua", "sub/c.lua"]),
+    ("respect-several-dirs-reversed", ["--respect-ignores", "sub/skipme.lua", "sub/c.lua", "a.lua"], ["a.lua", "sub/c.lua"]),
+    ("respect-nested-then-root-pattern", ["--respect-ignores", "sub/c.lua", "vendor/d.lua"], ["sub/c.lua"]),
 ]
 
 
@@ -254,7 +306,8 @@ def battery():
     return fails
 
 
-KIND2SCEN = {"setup": ["walk", "walk-allow-hidden", "glob", "overlapping", "dir-and-ignored-file"],
+KIND2SCEN = {"ignore": ["explicit-ignored-respect", "explicit-nested-ignore-respect", "respect-several-dirs", "respect-several-dirs-reversed", "respect-nested-then-root-pattern"],
+             "setup": ["walk", "walk-allow-hidden", "glob", "overlapping", "dir-and-ignored-file"],
              "dedup": ["overlapping"], "select": [s[0] for s in SCENARIOS]}
 
 
@@ -267,7 +320,7 @@ def run(ses, rep):
                     "note: a --glob whitelist match overrides the hidden-file filter and .styluaignore inside the `ignore` crate (observed: -g '*.lua' formats "
                     ".hidden.lua) - the statement's `hidden unless --allow-hidden` does not hold under explicit globs, by the crate's documented precedence",
                     "the stdin entry (C17)", "processing inside the worker (C14)"]
-    flagged = setup(ses, rep) + helpers(ses, rep) + entry_step(ses, rep)
+    flagged = setup(ses, rep) + helpers(ses, rep) + entry_step(ses, rep) + ignore_lookup(ses, rep)
     rep.samples.append({"flagged": [(f[0], f[1]) for f in flagged][:8]})
     if not flagged:
         return
